@@ -20,11 +20,12 @@ ASSUMPTIONS = [
 NSHARDS = {"quick": 64, "thorough": 128}
 BUDGET_S = {"quick": 240, "thorough": 2400}
 MIN_HITS = {
-    'quick': {"program": 66604, "exh": 65459, "cond": 185, "random": 960, "ref_ok": 57307, "ref_fail": 9289, "op_148": 1901, "op_153": 180, "op_128": 157, "op_113": 49, "op_100": 420},
+    'quick': {"program": 135944, "exh": 134634, "cond": 230, "random": 960, "ref_ok": 115020, "ref_fail": 20874, "op_148": 4302, "op_153": 218, "op_128": 199, "op_113": 44, "op_100": 460},
     'thorough': {"program": 539362, "exh": 78340, "cond": 222, "random": 460800, "ref_ok": 350901, "ref_fail": 188451, "op_148": 41827, "op_153": 28434, "op_128": 21555, "op_113": 22450, "op_100": 151784},
 }
 
 V15 = [b"", b"\x00", b"\x80", b"\x01", b"\x81", b"\x7f", b"\xff", b"\x80\x00", b"\xff\x7f", b"\xff\xff", b"\x01\x00", b"\x00\x00\x00\x80\x00", bytes(range(1, 9)) + b"\x10", b"\x04\x03\x02\x81", bytes((i * 7 + 1) & 0xFF for i in range(80))]
+V15 = V15 + [b"\xff\xff\xff\x7f", b"\x00\x00\x00\x80\x80", b"\xff\xff\xff\xff\xff\xff\xff\x7f", b"\x00\x00\x00\x00\x00\x00\x00\x80\x80", b"\x00\x00\x00\x00\x00\x00\x00\x00\x01"]
 V6 = [b"", b"\x01", b"\x81", b"\x80", b"\x02\x01", b"\x00\x00\x00\x80\x00"]
 MARK = [bytes([0xA0 + i]) for i in range(8)]
 
@@ -165,6 +166,17 @@ def cases(ctx):
         toks = gen_random(r, r.choice([5, 8, 12, 20, 35, 60]))
         if toks:
             yield case_of(toks, "random")
+    # long programs (hundreds to thousands of executed opcodes)
+    if S % 8 == 0:
+        for n in (400, 501, 600, 1000, 2500):
+            yield case_of([("op", 81)] + [("op", 118), ("op", 117)] * n, "long")
+            yield case_of([("op", 97)] * (2 * n) + [("op", 82)], "long")
+            yield case_of([("op", 0)] + [("op", 139)] * n, "long")
+            yield case_of([("op", 81)] + [("op", 99), ("op", 81), ("op", 104)] * (n // 2), "long")
+    # elements whose SIZE falls on every script-number length class boundary (built by doubling; compared on the final stack only)
+    if S % 8 == 1:
+        for L in (127, 128, 255, 256, 32767, 32768, 65535, 65536, 8388607, 8388608):
+            yield {"k": "bigprog", "len": L, "tag": "bigelem"}
 
 
 def in_scope(raw):
@@ -207,7 +219,35 @@ def fmt(st):
     return [x.hex() for x in st]
 
 
+def bigprog_tokens(L):
+    """push one byte, double it until >= L, cut to exactly L, then SIZE NIP: the final stack is the script number L"""
+    toks = [("push", b"\xa5")]
+    n = 1
+    while n < L:
+        toks += [("op", 118), ("op", 126)]
+        n *= 2
+    if n != L:
+        toks += [interp.push_of(interp.enc(L)), ("op", 127), ("op", 117)]
+    return toks + [("op", 130), ("op", 119)]
+
+
 def judge(ctx, case):
+    if case.get("k") == "bigprog":
+        toks = bigprog_tokens(case["len"])
+        ctx.hit("program")
+        ctx.hit("bigelem")
+        ctx.nontrivial()
+        ref = interp.run(toks, max_elem=1 << 25)
+        r = ctx.call({"op": "interp", "script": wire.detok(toks).hex(), "max_steps": len(toks) + 2, "mode": "step", "compact": True, "guard": 4 << 30}, watchdog=600)
+        ctx.ev()
+        if "ok" not in r or "step" not in r["ok"]:
+            ctx.note("big-element probe hit a harness limit: no verdict")
+            return
+        s = r["ok"]["step"]
+        want = [x.hex() for x in ref["trace"][-1][0]]
+        if s["end"] != "none" or s["last_ok"]["stack"] != want:
+            ctx.viol("opcode=OP_SIZE kind=wrong_result (element of %s bytes)" % ("2^23 or more" if case["len"] >= 1 << 23 else "less than 2^23"), {"len": case["len"], "lib": s["last_ok"], "end": s["end"], "detail": s["detail"], "ref": want})
+        return
     raw = bytes.fromhex(case["hex"])
     toks = wire.tokenize(raw)
     ctx.hit("program")
